@@ -1,0 +1,53 @@
+//go:build verif
+
+// Contracts for package inmemory, checked by /verif/govc (see /verif/DESIGN.md).
+// This file contains no code: only structured //@ comments keyed by function.
+// Abstraction: store(p)[id] = id in p.checkpoints ? Some(p.checkpoints[id].rawChkpt) : None.
+
+package inmemory
+
+//@ func (*inMemoryPersistence).expectAndWrite
+//@   returns (err)
+//@   let mu      := fieldref(p, 0)
+//@   let curHas  := old(logID in p.checkpoints)
+//@   let curVal  := old(p.checkpoints[logID])
+//@   let expHas  := old != nil
+//@   let expVal  := old(deref(old))
+//@   requires p != nil && p.checkpoints != nil && !wl[mu] && rl[mu] == 0
+//@   modifies mapof(p.checkpoints), wl, rl
+//@   // compare-and-set: succeeds iff the current value equals the expected snapshot (both absent, or both present and deeply equal)
+//@   ensures[C05.cas] err == nil <==> (expHas == curHas && (expHas ==> expVal == curVal))
+//@   ensures[C05.wr,C12.im]  err == nil ==> mapHas(p.checkpoints) == old(mapHas(p.checkpoints))[logID := true] && mapVal(p.checkpoints) == old(mapVal(p.checkpoints))[logID := new]
+//@   ensures[C03.im,C05.wr]  err != nil ==> mapHas(p.checkpoints) == old(mapHas(p.checkpoints)) && mapVal(p.checkpoints) == old(mapVal(p.checkpoints))
+//@   ensures[C05.lock] wl == old(wl) && rl == old(rl)
+
+//@ func verifInterfere
+//@   assumed
+//@   modifies mapof(p.checkpoints), mid_has, mid_val
+//@   ensures mid_has == mapHas(p.checkpoints) && mid_val == mapVal(p.checkpoints)
+
+//@ func verifScenarioWrite
+//@   returns (seen, gerr, serr)
+//@   let mu := fieldref(p, 0)
+//@   requires p != nil && p.checkpoints != nil && !wl[mu] && rl[mu] == 0
+//@   modifies mapof(p.checkpoints), wl, rl, mid_has, mid_val
+//@   // the handle validates the snapshot it handed out: Set succeeds only if, at that moment, the store
+//@   // still holds exactly what GetLatest returned (or still holds nothing, if GetLatest said NotFound)
+//@   ensures[C05.snap] serr == nil ==> (gerr == nil ==> mid_has[id] && mid_val[id].rawChkpt == seen) && (gerr != nil ==> !mid_has[id])
+//@   // a successful Set writes exactly this log's entry; a failed one has no effect; no update is lost
+//@   ensures[C05.eff,C12.im] serr == nil ==> mapHas(p.checkpoints) == mid_has[id := true] && mapVal(p.checkpoints)[id].rawChkpt == c
+//@   ensures[C05.eff,C12.im] serr == nil ==> (forall k string :: k != id ==> mapVal(p.checkpoints)[k] == mid_val[k])
+//@   ensures[C05.eff,C03.im] serr != nil ==> mapHas(p.checkpoints) == mid_has && mapVal(p.checkpoints) == mid_val
+//@   ensures[C05.nf,C07.nf]  gerr != nil ==> code(gerr) == NotFound && seen == nil
+//@   ensures[C05.lock] wl == old(wl) && rl == old(rl)
+
+//@ func verifScenarioRead
+//@   returns (seen, gerr)
+//@   let mu := fieldref(p, 0)
+//@   requires p != nil && p.checkpoints != nil && !wl[mu] && rl[mu] == 0
+//@   modifies mapof(p.checkpoints), wl, rl, mid_has, mid_val
+//@   // a read returns a value the store held during the call (here: at the ReadOps call), or NotFound if it held none
+//@   ensures[C05.rd,C16.im] gerr == nil ==> mid_has[id] && mid_val[id].rawChkpt == seen
+//@   ensures[C05.rd,C16.im] gerr != nil ==> !mid_has[id] && code(gerr) == NotFound && seen == nil
+//@   ensures[C05.lock] wl == old(wl) && rl == old(rl)
+//@   ensures[C03.im] mapHas(p.checkpoints) == mid_has && mapVal(p.checkpoints) == mid_val
